@@ -182,9 +182,9 @@ def gen_value(rng):
     pool = PLAIN
     n = rng.choice([0, 1, 1, 1, 2, 2, 3, 4])
     parts = [rng.choice(pool) for _ in range(n)]
-    if r < 0.07:
+    if r < 0.025:
         parts.insert(rng.randrange(len(parts) + 1), rng.choice(WITH_DQ))
-    elif r < 0.09:
+    elif r < 0.033:
         parts.insert(rng.randrange(len(parts) + 1), rng.choice(REJECTED))
     return "".join(parts)
 
@@ -377,8 +377,7 @@ def run(ctx, only=None):
             print("oracle: MPD's tokenizer and filter grammar give back the expression that was built")
     shapes = {}
     for c in cases:
-        t = dec(c.split(" ")[2])
-        d = depth(t)
+        d = depth(mirror(dec(c.split(" ")[2])))
         shapes[f"depth{d}"] = shapes.get(f"depth{d}", 0) + 1
     nontrivial = {c for c in cases if any(any(ch in v for ch in " \t\r\"'\\()") or v == "" for v in values(dec(c.split(" ")[2])))
                   or dec(c.split(" ")[2])[0] in "N!&"}
@@ -396,10 +395,13 @@ def run(ctx, only=None):
     )
 
 
-def depth(t):
-    if t[0] in "TtEA":
+def depth(a):
+    """nesting depth of the expression (after flattening)"""
+    if a[0] == "L":
         return 1
-    return 1 + max(depth(x) for x in t[1:])
+    if a[0] == "N":
+        return 1 + depth(a[1])
+    return 1 + max(depth(x) for x in a[1])
 
 
 def replay(ctx, payload):
